@@ -150,11 +150,13 @@ def _int_strategy(t, storage: bool):
     return st.one_of(*parts)
 
 
-def value_strategy(t, storage: bool = True, invalid: bool = False, depth: int = 0):
+def value_strategy(t, storage: bool = True, invalid: bool = False, depth: int = 0, elem_storage: bool = False):
     """
     storage=True : any value of the generated C/C++ storage type (incl. out-of-range values that must saturate/truncate)
     storage=False: only values inside the field's range (what the Python setters accept)
     invalid=True : additionally array counts above capacity and invalid union tags (C / C++ source objects)
+    elem_storage=True (with storage=False): UNSIGNED INTEGER ELEMENTS OF ARRAYS range over their storage type -- the generated
+                   Python array setters check lengths, not element ranges, so such objects exist in every target
     """
     if isinstance(t, pydsdl.BooleanType):
         return st.booleans()
@@ -162,19 +164,23 @@ def value_strategy(t, storage: bool = True, invalid: bool = False, depth: int = 
         return _float_strategy(t.bit_length, storage)
     if isinstance(t, pydsdl.PrimitiveType):
         return _int_strategy(t, storage)
+    if isinstance(t, pydsdl.ArrayType) and elem_storage and isinstance(t.element_type, pydsdl.UnsignedIntegerType):
+        est = _int_strategy(t.element_type, True)
+    elif isinstance(t, pydsdl.ArrayType):
+        est = value_strategy(t.element_type, storage, invalid, depth + 1, elem_storage)
     if isinstance(t, pydsdl.FixedLengthArrayType):
-        return st.lists(value_strategy(t.element_type, storage, invalid, depth + 1), min_size=t.capacity, max_size=t.capacity)
+        return st.lists(est, min_size=t.capacity, max_size=t.capacity)
     if isinstance(t, pydsdl.VariableLengthArrayType):
         cap = t.capacity
         lens = [0, 1, min(2, cap), cap] + ([min(cap, 9)] if cap > 9 else [])
         if invalid:
             lens += [cap + 1, cap + 1]
-        elem = value_strategy(t.element_type, storage, invalid, depth + 1)
+        elem = est
         return st.sampled_from(lens).flatmap(lambda n: st.lists(elem, min_size=n, max_size=n))
     t = inner(t)
     if isinstance(t, pydsdl.UnionType):
         opts = [
-            value_strategy(f.data_type, storage, invalid, depth + 1).map(lambda v, n=f.name: {n: v}) for f in t.fields
+            value_strategy(f.data_type, storage, invalid, depth + 1, elem_storage).map(lambda v, n=f.name: {n: v}) for f in t.fields
         ]
         if invalid:
             n = len(t.fields)
@@ -184,7 +190,7 @@ def value_strategy(t, storage: bool = True, invalid: bool = False, depth: int = 
     fields = t.fields_except_padding
     if not fields:
         return st.just({})
-    return st.fixed_dictionaries({f.name: value_strategy(f.data_type, storage, invalid, depth + 1) for f in fields})
+    return st.fixed_dictionaries({f.name: value_strategy(f.data_type, storage, invalid, depth + 1, elem_storage) for f in fields})
 
 
 def is_invalid(t, v) -> bool:
